@@ -39,6 +39,20 @@ Theorem tlv8_field_roundtrip : forall n t v,
     exists e, enc 255 n t v = Ok e /\ e <> [] /\ dec 255 n t e = Ok v.
 Proof. exact (roundtrip_n 255 F255). Qed.
 
+(* [wf_schema] is not limited by its depth fuel: it accepts exactly the schemas that
+   are well-formed at some depth *)
+Theorem tlv8_wf_schema_fuel : forall t, wf_schema t = true <-> exists n, wf n t = true.
+Proof. exact wf_schema_iff. Qed.
+
+(* outside [wf_schema] the statement is false.  Witness: a struct declaring item type
+   128 twice (aiohomekit.meshcop.Meshcop does, for 128 and 129): the value with the
+   FIRST of the two fields set encodes to 80 01 01 and decodes with the SECOND set.
+   Replayed on the implementation by harness/c16.py (known finding). *)
+Theorem tlv8_roundtrip_dup_tags_refuted :
+  exists t v e, wf_schema t = false /\ fits_msg t v = true /\
+                tlv8_encode t v = Ok e /\ tlv8_decode t e <> Ok v.
+Proof. exact dup_tags_refuted. Qed.
+
 (* ---- canonical form -------------------------------------------------------- *)
 (* whatever encode returns is the textbook encoding: declaration order, maximal
    255-byte fragments, "00 00" between list items, nothing for unset fields *)
@@ -134,6 +148,8 @@ Qed.
 Print Assumptions tlv8_roundtrip.
 Print Assumptions tlv8_roundtrip_depth.
 Print Assumptions tlv8_field_roundtrip.
+Print Assumptions tlv8_wf_schema_fuel.
+Print Assumptions tlv8_roundtrip_dup_tags_refuted.
 Print Assumptions tlv8_canonical.
 Print Assumptions tlv8_accessory_order.
 Print Assumptions tlv8_accessory_order_depth.
